@@ -398,10 +398,15 @@ theorem namesFresh_of (o : Opts) (A : AState) (cid : Nat) (cc : Container) (hite
 
 def incrLoopNum (cid : Nat) (r : ContainerRow) : ContainerRow := if r.id == cid then { r with nextLoopNum := r.nextLoopNum + 1 } else r
 
+/-- the state with one more loop `x` in container `cid` -/
+def withLoopG (A : AState) (cid : Nat) (x : ALoop) : AState :=
+  { A with containers := A.containers.map (incrLoopNum cid), loops := A.loops ++ [x] }
+
+def newLoop (o : Opts) (cid num : Nat) (names : List Str) : ALoop :=
+  { cid := cid, num := num, category := none, items := names.map (fun n => (o.norm n, n)), packets := [] }
+
 /-- the state with one more loop (category NULL, no packet) in container `cid` -/
-def withLoop (o : Opts) (A : AState) (cid num : Nat) (names : List Str) : AState :=
-  { A with containers := A.containers.map (incrLoopNum cid),
-           loops := A.loops ++ [{ cid := cid, num := num, category := none, items := names.map (fun n => (o.norm n, n)), packets := [] }] }
+def withLoop (o : Opts) (A : AState) (cid num : Nat) (names : List Str) : AState := withLoopG A cid (newLoop o cid num names)
 
 /-- the loop the parser is filling: the LAST loop of its container, category NULL, the header's names (distinct after
     normalisation), identified by (container id, loop number) -/
@@ -431,8 +436,9 @@ theorem nodup_of_hasDup : ∀ ks : List Str, hasDup ks = false → ks.Nodup
     have : ks.contains k = true := List.contains_iff_mem.mpr hm
     rw [this] at h; cases h.1
 
-theorem AInv.withLoop {o : Opts} {A : AState} (hi : AInv o A) (b : BlockRow) (hb : b ∈ A.blocks) (c : ContainerRow)
-    (hc : c ∈ A.containers) (hcb : c.id = b.cid) (names : List Str) : AInv o (withLoop o A b.cid c.nextLoopNum names) where
+theorem AInv.withLoopG {o : Opts} {A : AState} (hi : AInv o A) (b : BlockRow) (hb : b ∈ A.blocks) (c : ContainerRow)
+    (hc : c ∈ A.containers) (hcb : c.id = b.cid) (x : ALoop) (hx1 : x.cid = b.cid) (hx2 : x.num = c.nextLoopNum)
+    (hx3 : ∀ it ∈ x.items, it.1 = o.norm it.2) : AInv o (withLoopG A b.cid x) where
   frames := hi.frames
   blkNorm := hi.blkNorm
   blkCont := by
@@ -459,7 +465,7 @@ theorem AInv.withLoop {o : Opts} {A : AState} (hi : AInv o A) (b : BlockRow) (hb
     intro y hy
     rcases List.mem_append.mp hy with h | h
     · exact hi.loopCids y h
-    · simp only [List.mem_singleton] at h; subst h; exact hi.ids b hb
+    · simp only [List.mem_singleton] at h; subst h; rw [hx1]; exact hi.ids b hb
   loopNums := by
     intro y hy c' hc' e
     obtain ⟨c0, hc0, rfl⟩ := List.mem_map.mp hc'
@@ -472,9 +478,10 @@ theorem AInv.withLoop {o : Opts} {A : AState} (hi : AInv o A) (b : BlockRow) (hb
     rcases List.mem_append.mp hy with h | h
     · have := hi.loopNums y h c0 hc0 e; omega
     · simp only [List.mem_singleton] at h; subst h
-      simp only [] at e ⊢
+      rw [hx1] at e
       have : c0 = c := hi.contUniq c0 hc0 c hc (by rw [e, hcb])
       subst this
+      rw [hx2]
       unfold incrLoopNum
       have : (c0.id == b.cid) = true := by simp [hcb]
       simp [this]
@@ -485,7 +492,8 @@ theorem AInv.withLoop {o : Opts} {A : AState} (hi : AInv o A) (b : BlockRow) (hb
     intro y hy z hz
     simp only [List.mem_singleton] at hz; subst hz
     rintro ⟨e1, e2⟩
-    simp only [] at e1 e2
+    rw [hx1] at e1
+    rw [hx2] at e2
     have := hi.loopNums y hy c hc (by rw [hcb, e1])
     omega
   itemNorm := by
@@ -493,11 +501,14 @@ theorem AInv.withLoop {o : Opts} {A : AState} (hi : AInv o A) (b : BlockRow) (hb
     rcases List.mem_append.mp hy with h | h
     · exact hi.itemNorm y h it hit
     · simp only [List.mem_singleton] at h; subst h
-      obtain ⟨n, _, rfl⟩ := List.mem_map.mp hit
-      rfl
+      exact hx3 it hit
 
-def newLoop (o : Opts) (cid num : Nat) (names : List Str) : ALoop :=
-  { cid := cid, num := num, category := none, items := names.map (fun n => (o.norm n, n)), packets := [] }
+theorem AInv.withLoop {o : Opts} {A : AState} (hi : AInv o A) (b : BlockRow) (hb : b ∈ A.blocks) (c : ContainerRow)
+    (hc : c ∈ A.containers) (hcb : c.id = b.cid) (names : List Str) : AInv o (withLoop o A b.cid c.nextLoopNum names) :=
+  hi.withLoopG b hb c hc hcb _ rfl rfl (by
+    intro it hit
+    obtain ⟨n, _, rfl⟩ := List.mem_map.mp hit
+    rfl)
 
 theorem toLoop_newLoop (o : Opts) (cid num : Nat) (names : List Str) :
     (newLoop o cid num names).toLoop = { category := none, names := names, packets := [] } := by
@@ -508,25 +519,31 @@ theorem toLoop_newLoop (o : Opts) (cid num : Nat) (names : List Str) :
   apply List.map_congr_left
   intro n _; rfl
 
-theorem loopsOf_withLoop_same (o : Opts) (A : AState) (cid num : Nat) (names : List Str) :
-    loopsOf (withLoop o A cid num names) cid = loopsOf A cid ++ [{ category := none, names := names, packets := [] }] := by
-  unfold loopsOf withLoop
+theorem loopsOf_withLoopG_same (A : AState) (cid : Nat) (x : ALoop) (hx : x.cid = cid) :
+    loopsOf (withLoopG A cid x) cid = loopsOf A cid ++ [x.toLoop] := by
+  unfold loopsOf withLoopG
   simp only [List.filter_append, List.map_append]
   congr 1
-  have : ([newLoop o cid num names].filter fun y => y.cid == cid) = [newLoop o cid num names] := by
-    simp [List.filter_cons, newLoop]
-  show ([newLoop o cid num names].filter fun y => y.cid == cid).map ALoop.toLoop = _
-  rw [this, List.map_cons, List.map_nil, toLoop_newLoop]
+  have : ([x].filter fun y => y.cid == cid) = [x] := by simp [List.filter_cons, hx]
+  rw [this, List.map_cons, List.map_nil]
+
+theorem loopsOf_withLoopG_other (A : AState) (cid : Nat) (x : ALoop) (hx : x.cid = cid) (c : Nat) (hc : c ≠ cid) :
+    loopsOf (withLoopG A cid x) c = loopsOf A c := by
+  unfold loopsOf withLoopG
+  simp only [List.filter_append, List.map_append]
+  have : ([x].filter fun y => y.cid == c) = [] := by
+    have : (cid == c) = false := by simpa using (Ne.symm hc)
+    simp [List.filter_cons, hx, this]
+  rw [this, List.map_nil, List.append_nil]
+
+theorem loopsOf_withLoop_same (o : Opts) (A : AState) (cid num : Nat) (names : List Str) :
+    loopsOf (withLoop o A cid num names) cid = loopsOf A cid ++ [{ category := none, names := names, packets := [] }] := by
+  unfold withLoop
+  rw [loopsOf_withLoopG_same A cid _ rfl, toLoop_newLoop]
 
 theorem loopsOf_withLoop_other (o : Opts) (A : AState) (cid num : Nat) (names : List Str) (c : Nat) (hc : c ≠ cid) :
-    loopsOf (withLoop o A cid num names) c = loopsOf A c := by
-  unfold loopsOf withLoop
-  simp only [List.filter_append, List.map_append]
-  have : ([newLoop o cid num names].filter fun y => y.cid == c) = [] := by
-    have : (cid == c) = false := by simpa using (Ne.symm hc)
-    simp [List.filter_cons, newLoop, this]
-  show _ ++ ([newLoop o cid num names].filter fun y => y.cid == c).map ALoop.toLoop = _
-  rw [this, List.map_nil, List.append_nil]
+    loopsOf (withLoop o A cid num names) c = loopsOf A c :=
+  loopsOf_withLoopG_other A cid _ rfl c hc
 
 /-- **cif_container_create_loop** (category NULL) in the container of block `b`: names valid, absent from the container, pairwise
     distinct (`SOp.docOk`) — the call succeeds; the new loop is the last one of the container -/
@@ -554,7 +571,7 @@ theorem sim_mkLoop (o : Opts) (A : AState) (hi : AInv o A) (k : Str) (b : BlockR
     simp only [h1, h2, hh, hfind, h3, Bool.false_eq_true, if_false, Bool.not_true]
     have : ((none : Option Str) == some []) = false := rfl
     simp only [this, Bool.false_and, Bool.false_eq_true, if_false]
-    unfold withLoop
+    unfold withLoop withLoopG newLoop
     simp only [List.map_map]
     rfl
   · rw [← hb.2]
@@ -562,8 +579,8 @@ theorem sim_mkLoop (o : Opts) (A : AState) (hi : AInv o A) (k : Str) (b : BlockR
       (fun ls => ls ++ [{ category := none, names := names, packets := [] }]) rfl hi.frames
       (fun c' hc' => loopsOf_withLoop_other o A b.cid _ names c' hc') (loopsOf_withLoop_same o A b.cid _ names)
   · refine ⟨A.loops.filter (fun y => y.cid == b.cid), newLoop o b.cid c.nextLoopNum names, ?_, rfl, rfl, rfl, rfl, ?_⟩
-    · unfold withLoop
-      simp only [List.filter_append]
+    · show (A.loops ++ [newLoop o b.cid c.nextLoopNum names]).filter (fun y => y.cid == b.cid) = _
+      rw [List.filter_append]
       congr 1
       simp [List.filter_cons, newLoop]
     · simp only [Bool.or_eq_false_iff] at hcl
@@ -692,5 +709,444 @@ theorem sim_addPkt (o : Opts) (A : AState) (hi : AInv o A) (k : Str) (b : BlockR
         hfl, List.map_append, List.map_append, List.map_cons, List.map_nil, List.map_cons, List.map_nil, addPacketLast_append]
       rfl
   · exact ⟨ls0, { x with packets := x.packets ++ [vals] }, hlast, hxc, hxn, hcat, hitems, hnd⟩
+
+/-! ### cif_container_set_value -/
+
+/-- one packet: "the given value in the item's cell" as the identity model says it (`ALoop.setColumn`) and as the parser model does
+    it (`setAll`: the first matching cell) — the same, because keys are distinct and the packet is as wide as the header -/
+theorem cells_set (o : Opts) (k : Str) (v : V) : ∀ (items : List (Str × Str)) (p : List V),
+    (∀ it ∈ items, it.1 = o.norm it.2) → (items.map (·.1)).Nodup → p.length = items.length →
+    (items.zip p).map (fun e => if e.1.1 == k then v else e.2) =
+      (match (items.map (·.2)).findIdx? (fun n => o.norm n == k) with
+       | none => p
+       | some i => p.set i v)
+  | [], p, _, _, hl => by
+    cases p with
+    | nil => rfl
+    | cons _ _ => simp at hl
+  | it :: r, p, hn, hnd, hl => by
+    cases p with
+    | nil => simp at hl
+    | cons c p' =>
+      have hit : it.1 = o.norm it.2 := hn it List.mem_cons_self
+      have hn' : ∀ it' ∈ r, it'.1 = o.norm it'.2 := fun it' h' => hn it' (List.mem_cons_of_mem _ h')
+      simp only [List.map_cons, List.nodup_cons] at hnd
+      have hl' : p'.length = r.length := by simpa using hl
+      have ih := cells_set o k v r p' hn' hnd.2 hl'
+      simp only [List.zip_cons_cons, List.map_cons, List.findIdx?_cons, ← hit]
+      by_cases hk : (it.1 == k) = true
+      · simp only [hk, if_true, List.set_cons_zero]
+        congr 1
+        rw [ih]
+        have : (r.map (·.2)).findIdx? (fun n => o.norm n == k) = none := by
+          rw [List.findIdx?_eq_none_iff]
+          intro x hx
+          obtain ⟨it', hit', rfl⟩ := List.mem_map.mp hx
+          rw [← hn' it' hit']
+          have hk' : it.1 = k := by simpa using hk
+          rw [Bool.eq_false_iff]
+          intro he
+          have : it'.1 = k := by simpa using he
+          exact hnd.1 (by rw [hk', ← this]; exact List.mem_map_of_mem hit')
+        rw [this]
+      · have hk' : (it.1 == k) = false := by simpa using hk
+        simp only [hk', Bool.false_eq_true, if_false]
+        rw [ih]
+        cases (r.map (·.2)).findIdx? (fun n => o.norm n == k) with
+        | none => rfl
+        | some i => simp only [Option.map_some, List.set_cons_succ]
+
+/-- one loop: `setColumn` on the identity model is `setAll` on the tree (keys normalised and distinct, packets rectangular) -/
+theorem toLoop_setColumn (o : Opts) (z : ALoop) (k : Str) (v : V) (hn : ∀ it ∈ z.items, it.1 = o.norm it.2)
+    (hnd : (z.items.map (·.1)).Nodup) (hrect : ∀ p ∈ z.packets, p.length = z.items.length) :
+    (z.setColumn k v).toLoop = setAll o.norm k v z.toLoop := by
+  unfold ALoop.setColumn ALoop.toLoop setAll
+  simp only []
+  cases hfi : (z.items.map (·.2)).findIdx? (fun n => o.norm n == k) with
+  | none =>
+    simp only []
+    congr 1
+    conv => rhs; rw [← List.map_id z.packets]
+    apply List.map_congr_left
+    intro p hp
+    rw [cells_set o k v z.items p hn hnd (hrect p hp), hfi]
+    rfl
+  | some i =>
+    simp only []
+    congr 1
+    apply List.map_congr_left
+    intro p hp
+    rw [cells_set o k v z.items p hn hnd (hrect p hp), hfi]
+
+theorem keys_eq_norm_names (o : Opts) (z : ALoop) (hn : ∀ it ∈ z.items, it.1 = o.norm it.2) :
+    z.toLoop.names.map o.norm = z.items.map (·.1) := by
+  unfold ALoop.toLoop
+  simp only [List.map_map]
+  apply List.map_congr_left
+  intro it hit
+  simp only [Function.comp, hn it hit]
+
+theorem mem_normNames (o : Opts) (k : Str) (L : List ALoop) (hn : ∀ y ∈ L, ∀ it ∈ y.items, it.1 = o.norm it.2) (z : ALoop) (hz : z ∈ L)
+    (hk : z.hasItem k = true) : k ∈ normNames o (L.map ALoop.toLoop) := by
+  unfold normNames
+  rw [List.mem_flatten]
+  refine ⟨z.toLoop.names.map o.norm, ?_, ?_⟩
+  · rw [List.map_map]; exact List.mem_map_of_mem (f := (fun l => l.names.map o.norm) ∘ ALoop.toLoop) hz
+  · rw [keys_eq_norm_names o z (hn z hz)]
+    unfold ALoop.hasItem at hk
+    obtain ⟨it, hit, he⟩ := List.any_eq_true.mp hk
+    have : it.1 = k := by simpa using he
+    rw [← this]
+    exact List.mem_map_of_mem hit
+
+/-- at most one loop of a consistent container holds a given item -/
+theorem unique_holder (o : Opts) (k : Str) : ∀ (L : List ALoop), (∀ y ∈ L, ∀ it ∈ y.items, it.1 = o.norm it.2) →
+    (normNames o (L.map ALoop.toLoop)).Nodup → ∀ y ∈ L, ∀ z ∈ L, y.hasItem k = true → z.hasItem k = true → y = z
+  | [], _, _, y, hy, _, _, _, _ => by cases hy
+  | a :: r, hn, hnd, y, hy, z, hz, hyk, hzk => by
+    rw [List.map_cons, normNames_cons, List.nodup_append] at hnd
+    have hn' : ∀ y ∈ r, ∀ it ∈ y.items, it.1 = o.norm it.2 := fun y h' => hn y (List.mem_cons_of_mem _ h')
+    have hain : ∀ x : ALoop, x = a → x.hasItem k = true → k ∈ a.toLoop.names.map o.norm := by
+      intro x hx hxk
+      subst hx
+      have := mem_normNames o k [x] (fun y hy' => by simp only [List.mem_singleton] at hy'; subst hy'; exact hn y List.mem_cons_self) x
+        (List.mem_singleton.mpr rfl) hxk
+      simpa [normNames] using this
+    rcases List.mem_cons.mp hy with rfl | hy' <;> rcases List.mem_cons.mp hz with rfl | hz'
+    · rfl
+    · exact absurd rfl (hnd.2.2 k (hain y rfl hyk) k (mem_normNames o k r hn' z hz' hzk))
+    · exact absurd rfl (hnd.2.2 k (hain z rfl hzk) k (mem_normNames o k r hn' y hy' hyk))
+    · exact unique_holder o k r hn' hnd.2.1 y hy' z hz' hyk hzk
+
+/-- what the consistency of the container (`LoopsOk`, `LoopsRect` of its loops as the tree shows them) says about its loops in the
+    identity model -/
+theorem loop_facts (o : Opts) (A : AState) (hi : AInv o A) (cid : Nat) (hok : LoopsOk o (loopsOf A cid)) (hrect : LoopsRect (loopsOf A cid))
+    (z : ALoop) (hz : z ∈ A.loops.filter (fun y => y.cid == cid)) :
+    (z.items.map (·.1)).Nodup ∧ ∀ p ∈ z.packets, p.length = z.items.length := by
+  have hzm : z ∈ A.loops := (List.mem_filter.mp hz).1
+  have hzl : z.toLoop ∈ loopsOf A cid := List.mem_map_of_mem hz
+  refine ⟨?_, ?_⟩
+  · rw [← keys_eq_norm_names o z (hi.itemNorm z hzm)]
+    exact nodup_names_of_mem o _ _ hok.1 hzl
+  · intro p hp
+    have := hrect _ hzl p hp
+    simpa [ALoop.toLoop] using this
+
+theorem setAll_lacks (o : Opts) (z : ALoop) (k : Str) (v : V) (hn : ∀ it ∈ z.items, it.1 = o.norm it.2) (hk : z.hasItem k = false) :
+    setAll o.norm k v z.toLoop = z.toLoop := by
+  unfold setAll
+  have : z.toLoop.names.findIdx? (fun n => o.norm n == k) = none := by
+    rw [List.findIdx?_eq_none_iff]
+    intro x hx
+    unfold ALoop.toLoop at hx
+    obtain ⟨it, hit, rfl⟩ := List.mem_map.mp hx
+    rw [← hn it hit]
+    unfold ALoop.hasItem at hk
+    exact List.any_eq_false.mp hk it hit |> fun h => by simpa using h
+  rw [this]
+
+/-- the loops of container `cid` that hold item `k`: exactly one, when the container has the item -/
+theorem holder (o : Opts) (A : AState) (hi : AInv o A) (cid : Nat) (k : Str) (hok : LoopsOk o (loopsOf A cid))
+    (hhas : A.hasItem cid k = true) :
+    ∃ y, A.loops.filter (fun y => y.cid == cid && y.hasItem k) = [y] ∧ y ∈ A.loops ∧ y.cid = cid ∧ y.hasItem k = true := by
+  have hinL : ∀ z, z ∈ A.loops.filter (fun y => y.cid == cid && y.hasItem k) →
+      z ∈ A.loops.filter (fun y => y.cid == cid) ∧ z.hasItem k = true := by
+    intro z hz
+    obtain ⟨hzm, hzp⟩ := List.mem_filter.mp hz
+    simp only [Bool.and_eq_true] at hzp
+    exact ⟨List.mem_filter.mpr ⟨hzm, hzp.1⟩, hzp.2⟩
+  have hnL : ∀ y ∈ A.loops.filter (fun y => y.cid == cid), ∀ it ∈ y.items, it.1 = o.norm it.2 :=
+    fun y hy => hi.itemNorm y (List.mem_filter.mp hy).1
+  have hpw := List.Pairwise.filter (fun y => y.cid == cid && y.hasItem k) hi.loopPw
+  cases hF : A.loops.filter (fun y => y.cid == cid && y.hasItem k) with
+  | nil =>
+    exfalso
+    unfold AState.hasItem at hhas
+    obtain ⟨y, hy, hp⟩ := List.any_eq_true.mp hhas
+    have : y ∈ A.loops.filter (fun y => y.cid == cid && y.hasItem k) := List.mem_filter.mpr ⟨hy, hp⟩
+    rw [hF] at this; cases this
+  | cons y rest =>
+    have hy := hinL y (by rw [hF]; exact List.mem_cons_self)
+    cases rest with
+    | nil =>
+      have hyc : y.cid = cid := by simpa using (List.mem_filter.mp hy.1).2
+      exact ⟨y, rfl, (List.mem_filter.mp hy.1).1, hyc, hy.2⟩
+    | cons y2 r2 =>
+      exfalso
+      have hy2 := hinL y2 (by rw [hF]; simp)
+      have he : y = y2 := unique_holder o k _ hnL hok.1 y hy.1 y2 hy2.1 hy.2 hy2.2
+      rw [hF, List.pairwise_cons] at hpw
+      exact hpw.1 y2 List.mem_cons_self ⟨by rw [he], by rw [he]⟩
+
+/-- **cif_container_set_value of an item the container has**: the value in every packet of the item's loop -/
+theorem sim_setVal_existing (o : Opts) (A : AState) (hi : AInv o A) (k : Str) (b : BlockRow) (hb : BlockAt A k b) (h : CH)
+    (hh : h.id = b.cid) (n : Str) (v : V) (hvn : isValidName true n = true) (hok : LoopsOk o (loopsOf A b.cid))
+    (hrect : LoopsRect (loopsOf A b.cid)) (hhas : A.hasItem b.cid (o.norm n) = true) :
+    ∃ A', Store.specSetValue A h (some (mkName o true n)) (some v) = (A', .ok ()) ∧ AInv o A' ∧ A'.blocks = A.blocks ∧
+      A'.tree = updIn o.norm (fun c => Container.mk c.code c.frames (c.loops.map (setAll o.norm (o.norm n) v))) [k] A.tree := by
+  obtain ⟨y, hF, hym, hyc, hyk⟩ := holder o A hi b.cid (o.norm n) hok hhas
+  have hkey : (mkName o true n).key = o.norm n := rfl
+  have hgi : Store.specGetItemLoop A h (some (mkName o true n)) = .ok { cid := h.id, loopNum := y.num, category := y.category } := by
+    unfold Store.specGetItemLoop
+    have hv : (mkName o true n).valid = true := hvn
+    simp only [hv, Bool.not_true, Bool.false_eq_true, if_false, hkey, hh, hF]
+  have hspec := Store.specSetValue_existing A h (mkName o true n) (some v) _ hvn hgi
+  simp only [hkey, Option.getD_some, hh] at hspec
+  have hfcid : ∀ z : ALoop, (z.setColumn (o.norm n) v).cid = z.cid := fun _ => rfl
+  refine ⟨_, hspec, hi.onLoop _ _ _ (fun z hz => ⟨rfl, rfl, hi.itemNorm z hz⟩), rfl, ?_⟩
+  rw [← hb.2]
+  apply tree_upd o A (A.onLoop b.cid y.num fun y => y.setColumn (o.norm n) v) hi b hb.1
+    (fun ls => ls.map (setAll o.norm (o.norm n) v)) rfl hi.frames
+  · intro c hc
+    exact loopsOf_onLoop_other A b.cid y.num _ hfcid c hc
+  · unfold loopsOf
+    rw [filter_onLoop A b.cid y.num _ hfcid b.cid, List.map_map, List.map_map]
+    apply List.map_congr_left
+    intro z hz
+    simp only [Function.comp]
+    have hzm : z ∈ A.loops := (List.mem_filter.mp hz).1
+    have hzc : z.cid = b.cid := by simpa using (List.mem_filter.mp hz).2
+    obtain ⟨hnd, hr⟩ := loop_facts o A hi b.cid hok hrect z hz
+    split
+    · exact toLoop_setColumn o z (o.norm n) v (hi.itemNorm z hzm) hnd hr
+    · rename_i hne
+      have hzk : z.hasItem (o.norm n) = false := by
+        rw [Bool.eq_false_iff]
+        intro hzk
+        have hyL : y ∈ A.loops.filter (fun y => y.cid == b.cid) := List.mem_filter.mpr ⟨hym, by simp [hyc]⟩
+        have : z = y := unique_holder o (o.norm n) _ (fun y hy => hi.itemNorm y (List.mem_filter.mp hy).1) hok.1 z hz y hyL hzk hyk
+        apply hne
+        rw [this]; simp [hyc]
+      exact (setAll_lacks o z (o.norm n) v (hi.itemNorm z hzm) hzk).symm
+
+/-- the parser model's `addScalar` when the container has no scalar loop: a new one, last -/
+theorem addScalar_none (nm : Str) (v : V) : ∀ ls : List Loop, (∀ l ∈ ls, isScalarLoop l = false) →
+    addScalar ls nm v = ls ++ [{ category := some [], names := [nm], packets := [[v]] }]
+  | [], _ => rfl
+  | l :: r, h => by
+    have hl := h l List.mem_cons_self
+    simp only [addScalar, hl, Bool.false_eq_true, if_false, List.cons_append]
+    rw [addScalar_none nm v r (fun x hx => h x (List.mem_cons_of_mem _ hx))]
+
+/-- what `addScalar` does to the scalar loop -/
+def scalarUpd (nm : Str) (v : V) (l : Loop) : Loop :=
+  { l with names := l.names ++ [nm],
+           packets := if l.packets.isEmpty then [l.names.map (fun _ => V.unk) ++ [v]] else l.packets.map (· ++ [v]) }
+
+theorem addScalar_map (nm : Str) (v : V) : ∀ ls : List Loop, (ls.filter isScalarLoop).length ≤ 1 → ls.any isScalarLoop = true →
+    addScalar ls nm v = ls.map (fun l => if isScalarLoop l then scalarUpd nm v l else l)
+  | [], _, h => by cases h
+  | l :: r, hlen, hany => by
+    by_cases hl : isScalarLoop l = true
+    · simp only [addScalar, hl, if_true, List.map_cons, scalarUpd]
+      congr 1
+      have hr : ∀ x ∈ r, isScalarLoop x = false := by
+        intro x hx
+        rw [Bool.eq_false_iff]
+        intro hxs
+        have : x ∈ r.filter isScalarLoop := List.mem_filter.mpr ⟨hx, hxs⟩
+        simp only [List.filter_cons, hl, if_true, List.length_cons] at hlen
+        have h0 : (r.filter isScalarLoop).length = 0 := by omega
+        rw [List.length_eq_zero_iff] at h0
+        rw [h0] at this; cases this
+      conv => lhs; rw [← List.map_id r]
+      apply List.map_congr_left
+      intro x hx
+      simp [hr x hx]
+    · have hl' : isScalarLoop l = false := by simpa using hl
+      simp only [addScalar, hl', Bool.false_eq_true, if_false, List.map_cons]
+      congr 1
+      apply addScalar_map nm v r
+      · simpa [List.filter_cons, hl'] using hlen
+      · simpa [List.any_cons, hl'] using hany
+
+/-- the scalar loops of container `cid` in the identity model: at most one in a consistent container -/
+theorem scalar_loops (o : Opts) (A : AState) (cid : Nat) (hok : LoopsOk o (loopsOf A cid)) :
+    (A.loops.filter (fun z => z.cid == cid && z.category == some [])).length ≤ 1 := by
+  have h := hok.2.1
+  unfold loopsOf at h
+  rw [List.filter_map, List.length_map, List.filter_filter] at h
+  have : A.loops.filter (fun z => z.cid == cid && z.category == some []) =
+      A.loops.filter (fun a => (isScalarLoop ∘ ALoop.toLoop) a && (a.cid == cid)) := by
+    apply List.filter_congr
+    intro z _
+    rw [Bool.and_comm]; rfl
+  rw [this]; exact h
+
+theorem findLoop_fresh (o : Opts) (A : AState) (hi : AInv o A) (c : ContainerRow) (hc : c ∈ A.containers) :
+    A.findLoop c.id c.nextLoopNum = none := by
+  unfold AState.findLoop
+  rw [List.find?_eq_none]
+  intro y hy hp
+  simp only [Bool.and_eq_true, beq_iff_eq] at hp
+  have := hi.loopNums y hy c hc hp.1.symm
+  omega
+
+/-- **cif_container_set_value of an item the container does not have**: the item joins the scalar loop (created when absent) -/
+theorem sim_setVal_new (o : Opts) (A : AState) (hi : AInv o A) (k : Str) (b : BlockRow) (hb : BlockAt A k b) (h : CH)
+    (hh : h.id = b.cid) (n : Str) (v : V) (hvn : isValidName true n = true) (hok : LoopsOk o (loopsOf A b.cid))
+    (hhas : A.hasItem b.cid (o.norm n) = false) :
+    ∃ A', Store.specSetValue A h (some (mkName o true n)) (some v) = (A', .ok ()) ∧ AInv o A' ∧ A'.blocks = A.blocks ∧
+      A'.tree = updIn o.norm (fun c => Container.mk c.code c.frames (addScalar c.loops n v)) [k] A.tree := by
+  have hkey : (mkName o true n).key = o.norm n := rfl
+  have horig : (mkName o true n).orig = n := rfl
+  have hitem : A.loops.filter (fun y => y.cid == h.id && y.hasItem (mkName o true n).key) = [] := by
+    rw [List.filter_eq_nil_iff, hh, hkey]
+    intro y hy hp
+    unfold AState.hasItem at hhas
+    have := List.any_eq_false.mp hhas y hy
+    exact this hp
+  have hsl := scalar_loops o A b.cid hok
+  cases hS : A.loops.filter (fun z => z.cid == b.cid && z.category == some []) with
+  | nil =>
+    obtain ⟨c, hc, hcb, hfind⟩ := find_container o A hi b hb.1
+    have hfresh : A.findLoop h.id c.nextLoopNum = none := by rw [hh, ← hcb]; exact findLoop_fresh o A hi c hc
+    have hspec := Store.specSetValue_creates A h (mkName o true n) (some v) c hvn (by rw [hh]; exact hfind) hitem (by rw [hh]; exact hS) hfresh
+    simp only [hkey, horig, Option.getD_some, hh] at hspec
+    let x : ALoop := { cid := b.cid, num := c.nextLoopNum, category := some [], items := [(o.norm n, n)], packets := [[v]] }
+    have hA' : Store.specSetValue A h (some (mkName o true n)) (some v) = (withLoopG A b.cid x, .ok ()) := hspec
+    refine ⟨withLoopG A b.cid x, hA', hi.withLoopG b hb.1 c hc hcb x rfl rfl ?_, rfl, ?_⟩
+    · intro it hit
+      simp only [x, List.mem_singleton] at hit
+      subst hit; rfl
+    · rw [← hb.2]
+      apply tree_upd o A (withLoopG A b.cid x) hi b hb.1 (fun ls => addScalar ls n v) rfl hi.frames
+      · intro c' hc'
+        exact loopsOf_withLoopG_other A b.cid x rfl c' hc'
+      · rw [loopsOf_withLoopG_same A b.cid x rfl]
+        symm
+        apply addScalar_none
+        intro l hl
+        unfold loopsOf at hl
+        obtain ⟨z, hz, rfl⟩ := List.mem_map.mp hl
+        rw [Bool.eq_false_iff]
+        intro hsc
+        have hzc : (z.category == some []) = true := hsc
+        obtain ⟨hzm, hzp⟩ := List.mem_filter.mp hz
+        have : z ∈ A.loops.filter (fun z => z.cid == b.cid && z.category == some []) :=
+          List.mem_filter.mpr ⟨hzm, by simp [hzp, hzc]⟩
+        rw [hS] at this; cases this
+  | cons y rest =>
+    have hrest : rest = [] := by
+      rw [hS] at hsl
+      cases rest with
+      | nil => rfl
+      | cons _ _ => simp at hsl
+    subst hrest
+    have hyS : y ∈ A.loops.filter (fun z => z.cid == b.cid && z.category == some []) := by rw [hS]; exact List.mem_cons_self
+    obtain ⟨hym, hyp⟩ := List.mem_filter.mp hyS
+    simp only [Bool.and_eq_true, beq_iff_eq] at hyp
+    obtain ⟨hyc, hycat⟩ := hyp
+    have hspec := Store.specSetValue_joins A h (mkName o true n) (some v) y hvn hitem (by rw [hh]; exact hS)
+      (fun z hz hk => by
+        simp only [Bool.and_eq_true, beq_iff_eq] at hk
+        exact hi.loopKeys z hz y hym hk.1 hk.2)
+    simp only [hkey, horig, Option.getD_some] at hspec
+    let f : ALoop → ALoop := fun z => { z with
+      items := z.items ++ [(o.norm n, n)]
+      packets := (if z.packets.isEmpty then [z.items.map (fun _ => V.unk) ++ [v]] else z.packets.map (· ++ [v])) }
+    have hcongr : A.onLoop y.cid y.num (fun _ => f y) = A.onLoop y.cid y.num f := by
+      apply Store.onLoop_congr
+      intro z hz hk
+      simp only [Bool.and_eq_true, beq_iff_eq] at hk
+      rw [hi.loopKeys z hz y hym hk.1 hk.2]
+    have hA' : Store.specSetValue A h (some (mkName o true n)) (some v) = (A.onLoop b.cid y.num f, .ok ()) := by
+      rw [hspec, ← hyc, ← hcongr]
+    have hfcid : ∀ z : ALoop, (f z).cid = z.cid := fun _ => rfl
+    refine ⟨_, hA', hi.onLoop _ _ f (fun z hz => ⟨rfl, rfl, ?_⟩), rfl, ?_⟩
+    · intro it hit
+      rcases List.mem_append.mp hit with h1 | h1
+      · exact hi.itemNorm z hz it h1
+      · simp only [List.mem_singleton] at h1; subst h1; rfl
+    · rw [← hb.2]
+      apply tree_upd o A (A.onLoop b.cid y.num f) hi b hb.1 (fun ls => addScalar ls n v) rfl hi.frames
+      · intro c' hc'
+        exact loopsOf_onLoop_other A b.cid y.num f hfcid c' hc'
+      · have hyL : y ∈ A.loops.filter (fun z => z.cid == b.cid) := List.mem_filter.mpr ⟨hym, by simp [hyc]⟩
+        have hany : (loopsOf A b.cid).any isScalarLoop = true := by
+          rw [List.any_eq_true]
+          exact ⟨y.toLoop, List.mem_map_of_mem hyL, by show (y.category == some []) = true; simp [hycat]⟩
+        rw [addScalar_map n v _ hok.2.1 hany]
+        unfold loopsOf
+        rw [filter_onLoop A b.cid y.num f hfcid b.cid, List.map_map, List.map_map]
+        apply List.map_congr_left
+        intro z hz
+        simp only [Function.comp]
+        obtain ⟨hzm, hzp⟩ := List.mem_filter.mp hz
+        have hzc : z.cid = b.cid := by simpa using hzp
+        have hsc : isScalarLoop z.toLoop = (z.category == some []) := rfl
+        by_cases hm : (z.cid == b.cid && z.num == y.num) = true
+        · simp only [hm, if_true]
+          simp only [Bool.and_eq_true, beq_iff_eq] at hm
+          have hzy : z = y := hi.loopKeys z hzm y hym (by rw [hm.1, hyc]) hm.2
+          have : isScalarLoop z.toLoop = true := by rw [hsc, hzy, hycat]; rfl
+          rw [this, if_pos rfl]
+          simp only [f, ALoop.toLoop, scalarUpd, List.map_append, List.map_cons, List.map_nil, List.map_map]
+          rfl
+        · have hm' : (z.cid == b.cid && z.num == y.num) = false := by simpa using hm
+          simp only [hm', Bool.false_eq_true, if_false]
+          have : isScalarLoop z.toLoop = false := by
+            rw [hsc, Bool.eq_false_iff]
+            intro hzs
+            have : z ∈ A.loops.filter (fun z => z.cid == b.cid && z.category == some []) :=
+              List.mem_filter.mpr ⟨hzm, by simp [hzp, hzs]⟩
+            rw [hS, List.mem_singleton] at this
+            apply hm
+            rw [this]; simp [hyc]
+          rw [this]; rfl
+
+theorem updIn_one_congr (norm : Str → Str) (f f' : Container → Container) (k : Str) (cs : List Container)
+    (h : ∀ c ∈ cs, codeIs norm k c = true → f c = f' c) : updIn norm f [k] cs = updIn norm f' [k] cs := by
+  simp only [updIn]
+  apply List.map_congr_left
+  intro c hc
+  by_cases hk : codeIs norm k c = true
+  · simp only [hk, if_true, h c hc hk]
+  · have hk' : codeIs norm k c = false := by simpa using hk
+    simp only [hk', Bool.false_eq_true, if_false]
+
+theorem container_facts (o : Opts) (A : AState) (hi : AInv o A) (b : BlockRow) (hb : b ∈ A.blocks) (hokr : OkR o A.tree) :
+    LoopsOk o (loopsOf A b.cid) ∧ LoopsRect (loopsOf A b.cid) := by
+  have hm : blkTree A b ∈ A.tree := by rw [tree_noframes A hi.frames]; exact List.mem_map_of_mem hb
+  have h1 := (OkCs_iff o A.tree).mp hokr.1.2 _ hm
+  have h2 := (RectCs_iff A.tree).mp hokr.2 _ hm
+  rw [blkTree_eq, OkC_mk] at h1
+  rw [blkTree_eq, RectC_mk] at h2
+  exact ⟨h1.1, h2.1⟩
+
+/-- **cif_container_set_value** with a valid data name, on the container of block `b` of a consistent rectangular tree: the call
+    succeeds and the new state shows what the parser model's `setValueC` makes of the container -/
+theorem sim_setVal (o : Opts) (A : AState) (hi : AInv o A) (k : Str) (b : BlockRow) (hb : BlockAt A k b) (h : CH)
+    (hh : h.id = b.cid) (n : Str) (v : V) (hvn : isValidName true n = true) (hokr : OkR o A.tree) :
+    ∃ A', Store.specSetValue A h (some (mkName o true n)) (some v) = (A', .ok ()) ∧ AInv o A' ∧ A'.blocks = A.blocks ∧
+      A'.tree = updIn o.norm (setValueC o n v) [k] A.tree := by
+  obtain ⟨hok, hrect⟩ := container_facts o A hi b hb.1 hokr
+  have hcc : ∀ c ∈ A.tree, codeIs o.norm k c = true → c = blkTree A b := by
+    intro c hc hk
+    rw [tree_noframes A hi.frames] at hc
+    obtain ⟨b', hb', rfl⟩ := List.mem_map.mp hc
+    simp only [codeIs, blkTree_eq, Container.code, ← hi.blkNorm b' hb'] at hk
+    have : b'.name = k := by simpa using hk
+    rw [hi.blkUniq b' hb' b hb.1 (Or.inl (by rw [this, hb.2]))]
+  cases hhas : A.hasItem b.cid (o.norm n) with
+  | true =>
+    obtain ⟨A', h1, h2, h3, h4⟩ := sim_setVal_existing o A hi k b hb h hh n v hvn hok hrect hhas
+    refine ⟨A', h1, h2, h3, ?_⟩
+    rw [h4]
+    apply updIn_one_congr
+    intro c hc hk
+    rw [hcc c hc hk]
+    unfold setValueC
+    rw [hasItem_tree o A hi b, hhas, if_pos rfl]
+  | false =>
+    obtain ⟨A', h1, h2, h3, h4⟩ := sim_setVal_new o A hi k b hb h hh n v hvn hok hhas
+    refine ⟨A', h1, h2, h3, ?_⟩
+    rw [h4]
+    apply updIn_one_congr
+    intro c hc hk
+    rw [hcc c hc hk]
+    unfold setValueC
+    rw [hasItem_tree o A hi b, hhas]
+    rfl
 
 end CifModel.ParserSim
